@@ -212,7 +212,8 @@ const NAMES: [&str; 6] = ["connection", "upgrade", "sec-websocket-version", "sec
 const GOOD: [&str; 6] = ["upgrade", "websocket", "13", "penguin-v7", "dGhlIHNhbXBsZSBub25jZQ==", "s3cret"];
 
 /// variant of header i: 0 exact, 1 absent, 2 upper-case value, 3 near-miss, 4 duplicate first bad,
-/// 5 duplicate first good, 6 empty, 7 mixed-case name, 8 value with surrounding space
+/// 5 duplicate first good, 6 empty, 7 mixed-case name, 8 value with surrounding space,
+/// 9 leading zero, 10 leading plus, 11 trailing ".0"
 fn header_variant(i: usize, var: u64, psk: &[u8], out: &mut Vec<(Vec<u8>, Vec<u8>)>) {
     let name = NAMES[i].as_bytes().to_vec();
     let good: Vec<u8> = if i == 5 { psk.to_vec() } else { GOOD[i].as_bytes().to_vec() };
@@ -243,9 +244,25 @@ fn header_variant(i: usize, var: u64, psk: &[u8], out: &mut Vec<(Vec<u8>, Vec<u8
         }
         6 => out.push((name, vec![])),
         7 => out.push((name.to_ascii_uppercase(), good)),
-        _ => {
+        8 => {
             let mut v = good.clone();
             v.push(b' ');
+            out.push((name, v));
+        }
+        // values that a lenient parser would take for the right one ("013", "+13", "13.0" for the version)
+        9 => {
+            let mut v = vec![b'0'];
+            v.extend(&good);
+            out.push((name, v));
+        }
+        10 => {
+            let mut v = vec![b'+'];
+            v.extend(&good);
+            out.push((name, v));
+        }
+        _ => {
+            let mut v = good.clone();
+            v.extend(b".0");
             out.push((name, v));
         }
     }
@@ -285,7 +302,7 @@ pub fn generate(a: &Args, out: &mut Out) {
                     for (mi, m) in methods.iter().enumerate() {
                         for (pi, p) in paths.iter().enumerate() {
                             for hi in 0..7usize {
-                                for var in 0..9u64 {
+                                for var in 0..12u64 {
                                     if hi == 6 && var > 0 {
                                         continue;
                                     }
@@ -311,7 +328,7 @@ pub fn generate(a: &Args, out: &mut Out) {
         let presented = r.pick(&[&b"s3cret"[..], b"s3cre", b"S3CRET", b"s3cret ", b"", b"s3cretx"]);
         let mut hs = Vec::new();
         for i in 0..6 {
-            let var = if r.chance(3, 5) { 0 } else { r.below(9) };
+            let var = if r.chance(3, 5) { 0 } else { r.below(12) };
             header_variant(i, var, presented, &mut hs);
         }
         if r.chance(1, 4) {
